@@ -118,3 +118,32 @@ func TestC06Big(t *testing.T) {
 		return fmt.Sprintf("volume case: Apply producing and reading string cells of %v bytes", lens)
 	}, "long-cells-2^24")
 }
+
+// TestC12Big: one field of 2^24 bytes and more in a CSV document (no length limit is documented below 2^28), read in
+// one piece and in 64 KiB pieces; the cell must come back whole.
+func TestC12Big(t *testing.T) {
+	seed, _ := strconv.ParseUint(os.Getenv("VERIF_SHARD_SEED"), 10, 64)
+	lens := bigLens(seed ^ 0x1234567)
+	var sb strings.Builder
+	sb.WriteString("id,s\n")
+	want := []*string{}
+	for i, n := range lens {
+		c := bigString(n, byte('A'+i))
+		want = append(want, hx.Sp(c))
+		sb.WriteString(strconv.Itoa(i) + "," + c + "\n")
+	}
+	want = append(want, hx.Sp("tail"))
+	sb.WriteString("3,tail\n")
+	doc := []byte(sb.String())
+	for _, chunk := range []int{0, 1 << 16} {
+		var rd *hx.ChunkReader
+		if chunk == 0 {
+			rd = hx.NewChunkReader(doc, nil, false)
+		} else {
+			rd = hx.NewChunkReader(doc, []int{chunk}, false)
+		}
+		qf := qframe.ReadCSV(rd)
+		checkBigColumn(t, qf, "s", want, fmt.Sprintf("ReadCSV (chunk %d) of a document with fields of %v bytes", chunk, lens))
+	}
+	evC12.CaseHash(true, seed, func() string { return fmt.Sprintf("volume case: CSV fields of %v bytes", lens) }, "long-cells-2^24")
+}
